@@ -222,6 +222,8 @@ def judge_spectrogram(ctx, wav, window, hop, spec):
 
 
 FILE_SRS = [8000, 11025, 22050, 44100, 48000, 96000, 12345, 8192, 16384, 65536]
+# rates whose float reciprocal does not round-trip (int(1 / (1 / sr)) == sr - 1) and other unusual ones
+ODD_SRS = [12500, 25000, 50000, 100000, 200000, 250000, 192000, 384000, 32000, 7000, 3500, 1017, 24000, 125000, 300000, 500000]
 
 
 def run(ctx):
@@ -235,9 +237,12 @@ def run(ctx):
                           "axis.resample.time", "axis.compute_spectrogram.time", "axis.compute_spectrogram.frequency"]
     ctx.must_reach += ["audio/io.py::load_clip", "audio/io.py::load_recording", "audio/operations.py::resample", "audio/spectrograms.py::compute_spectrogram"]
 
-    n_files = ctx.scale(16, 30)
+    n_files = ctx.scale(22, 30)
     for fi in range(n_files):
-        file_sr = FILE_SRS[fi % len(FILE_SRS)] if fi < len(FILE_SRS) else rng.choice(FILE_SRS)
+        if fi < len(FILE_SRS):
+            file_sr = FILE_SRS[fi]
+        else:
+            file_sr = rng.choice([rng.choice(ODD_SRS), rng.choice(ODD_SRS), rng.randrange(1000, 400001), rng.choice(FILE_SRS)])
         te = rng.choice([1.0, 1.0, 10.0, 0.5])
         if te == 0.5 and file_sr % 2:
             te = 1.0
@@ -274,7 +279,7 @@ def run(ctx):
         if wav is None:
             continue
         # resample
-        for target in rng.sample([4000, 8000, 16000, 22050, 32000, 44100, 48000, 11111, 96000], 3):
+        for target in rng.sample([4000, 8000, 16000, 22050, 32000, 44100, 48000, 11111, 96000, 2 * real_sr, real_sr // 2 or 1000, 25000, 100000], 4):
             ctx.case(("resample", real_sr, target), dict(base, kind="resample", target=target), nontrivial=(real_sr % target != 0 and target % real_sr != 0))
             judge_resample(ctx, wav, target, dict(base, kind="resample", target=target))
         # spectrograms: whole and fractional numbers of samples per hop
